@@ -485,7 +485,11 @@ func (f *c20PathFlow) splitBool(x *c20Ctx, v ssa.Value, st c20Set, fi *c20FrameI
 			}
 			done = true
 		} else if c.Op == token.MUL {
-			f.Imprecise["a branch in "+x.Fn().Name()+" tests a boolean variable held in memory"] = true
+			switch c.X.(type) {
+			case *ssa.Alloc, *ssa.FreeVar:
+				f.Imprecise["a branch in "+x.Fn().Name()+" tests a boolean variable held in memory"] = true
+			}
+			// a boolean struct field: left to the client's Cond hook
 		}
 	}
 	if !done {
